@@ -8,5 +8,6 @@ CONSTANTS
   KsIdx = {1, 4, 9}
   TailLen = 0
   Variants = TRUE
+  ExtraKs = {1, 4, 9}
 INVARIANTS CheckAndEmit
 CHECK_DEADLOCK FALSE
